@@ -1,19 +1,181 @@
 package main
 
-import "fmt"
+import (
+	"flag"
+	"fmt"
+	"os"
+	"os/exec"
+	"path/filepath"
+	"sort"
+	"strings"
+	"time"
+)
 
 // tryReplay attempts to replay the model of a failed obligation on the real code. Returns true
 // when a concrete failing input was reproduced.
 func tryReplay(prop string, r *oblResult, path string) bool {
-	return false
+	return replayObligation(prop, r, path)
 }
 
 func cmdReplay(args []string) int {
-	fmt.Println("replay: not implemented yet")
-	return 2
+	if len(args) < 1 {
+		usage()
+	}
+	data, err := os.ReadFile(args[0])
+	if err != nil {
+		fmt.Fprintln(os.Stderr, err)
+		return 2
+	}
+	fmt.Print(string(data))
+	// a replay file that carries a Go test is re-run
+	goFile := strings.TrimSuffix(args[0], ".txt") + "_test.go.txt"
+	if _, err := os.Stat(goFile); err == nil {
+		ok, out := runReplayTest(goFile)
+		fmt.Println(out)
+		if ok {
+			fmt.Println("replay: the failure reproduces on the real code")
+			return 1
+		}
+		fmt.Println("replay: the failure does not reproduce")
+	}
+	return 0
+}
+
+// ---------------------------------------------------------------------------------------------
+// selftest: must-fail corpus
+
+type mutant struct {
+	prop   string
+	path   string
+	expect []string // substrings of obligation names, any of which must fail
+}
+
+func listMutants(prop string) []mutant {
+	var out []mutant
+	dirs, _ := filepath.Glob(filepath.Join(verifDir, "selftest", "C*"))
+	sort.Strings(dirs)
+	for _, d := range dirs {
+		p := filepath.Base(d)
+		if prop != "" && p != prop {
+			continue
+		}
+		files, _ := filepath.Glob(filepath.Join(d, "*.patch"))
+		sort.Strings(files)
+		for _, f := range files {
+			m := mutant{prop: p, path: f}
+			data, _ := os.ReadFile(f)
+			for _, l := range strings.Split(string(data), "\n") {
+				if strings.HasPrefix(l, "# expect:") {
+					m.expect = append(m.expect, strings.TrimSpace(strings.TrimPrefix(l, "# expect:")))
+				}
+			}
+			out = append(out, m)
+		}
+	}
+	return out
+}
+
+// scratchCopy copies the repository's current working tree (without .git) to a fresh directory
+// outside /repo and /verif.
+func scratchCopy() (string, error) {
+	dir, err := os.MkdirTemp("", "govc-scratch-")
+	if err != nil {
+		return "", err
+	}
+	cmd := exec.Command("rsync", "-a", "--exclude", ".git", repoDir+"/", dir+"/")
+	if out, err := cmd.CombinedOutput(); err != nil {
+		os.RemoveAll(dir)
+		return "", fmt.Errorf("rsync: %v: %s", err, out)
+	}
+	return dir, nil
 }
 
 func cmdSelftest(args []string) int {
-	fmt.Println("selftest: not implemented yet")
-	return 2
+	fs := flag.NewFlagSet("selftest", flag.ExitOnError)
+	prop := fs.String("property", "", "restrict to one property")
+	only := fs.String("only", "", "restrict to mutants whose file name contains this")
+	verbose := fs.Bool("v", false, "verbose")
+	fs.Parse(args)
+	ok, _, _ := runSelftest(*prop, *only, *verbose)
+	if ok {
+		return 0
+	}
+	return 1
+}
+
+// runSelftest applies every mutant of the corpus to a scratch copy and requires a failing
+// obligation. Returns ok, killed, and the lists of survived / skipped mutants.
+func runSelftest(prop, only string, verbose bool) (bool, int, []string) {
+	muts := listMutants(prop)
+	if len(muts) == 0 {
+		fmt.Println("selftest: no mutants")
+		return true, 0, nil
+	}
+	dir, err := scratchCopy()
+	if err != nil {
+		fmt.Fprintln(os.Stderr, "selftest:", err)
+		return false, 0, nil
+	}
+	defer os.RemoveAll(dir)
+	savedRepo := repoDir
+	defer func() { repoDir = savedRepo }()
+	killed := 0
+	var survived, skipped []string
+	for _, m := range muts {
+		if only != "" && !strings.Contains(filepath.Base(m.path), only) {
+			continue
+		}
+		name := m.prop + "/" + filepath.Base(m.path)
+		apply := exec.Command("patch", "-p1", "-s", "--no-backup-if-mismatch", "-i", m.path)
+		apply.Dir = dir
+		if out, err := apply.CombinedOutput(); err != nil {
+			fmt.Printf("selftest: SKIPPED %s (patch does not apply to the current tree: %s)\n", name, strings.TrimSpace(string(out)))
+			skipped = append(skipped, name)
+			// restore whatever was partially applied
+			exec.Command("rsync", "-a", "--exclude", ".git", savedRepo+"/", dir+"/").Run()
+			continue
+		}
+		repoDir = dir
+		start := time.Now()
+		out, err := runCheck(m.prop, false, 10*time.Second, false)
+		repoDir = savedRepo
+		var failing []string
+		if err != nil {
+			fmt.Printf("selftest: ERROR %s: %v\n", name, err)
+		} else {
+			for _, r := range out.results {
+				if !r.O.Cover && r.V.Status != "unsat" {
+					failing = append(failing, r.O.Name+" ("+r.V.Status+")")
+				}
+			}
+		}
+		hit := len(failing) > 0
+		if hit && len(m.expect) > 0 {
+			hit = false
+			for _, f := range failing {
+				for _, e := range m.expect {
+					if strings.Contains(f, e) {
+						hit = true
+					}
+				}
+			}
+		}
+		if hit {
+			killed++
+			if verbose {
+				fmt.Printf("selftest: killed   %s by %s (%.1fs)\n", name, strings.Join(failing, ", "), time.Since(start).Seconds())
+			}
+		} else {
+			fmt.Printf("selftest: SURVIVED %s (failing: %v, expected: %v)\n", name, failing, m.expect)
+			survived = append(survived, name)
+		}
+		rev := exec.Command("patch", "-p1", "-R", "-s", "--no-backup-if-mismatch", "-i", m.path)
+		rev.Dir = dir
+		if out, err := rev.CombinedOutput(); err != nil {
+			fmt.Printf("selftest: could not revert %s: %s\n", name, out)
+			exec.Command("rsync", "-a", "--delete", "--exclude", ".git", savedRepo+"/", dir+"/").Run()
+		}
+	}
+	fmt.Printf("selftest: %d killed, %d survived, %d skipped\n", killed, len(survived), len(skipped))
+	return len(survived) == 0, killed, survived
 }
